@@ -94,17 +94,31 @@ def _norm(x, memo):
                 [(k, _norm(v, memo)) for k, v in x.kw]])
     return out
   if isinstance(x, functools.partial):
-    func = getattr(x.func, '__wrapped__', x.func)
-    if not x.args and not x.keywords:
+    # Under CrossHair every functools.partial wraps a tracing shim (`__wrapped__`), so that partial(partial(f, 1)) is
+    # not flattened by CPython as it is in a plain interpreter: flatten here, by hand, on both sides.
+    func, pargs, pkw = x.func, tuple(x.args), dict(x.keywords)
+    for _ in range(8):
+      if isinstance(func, functools.partial):
+        pargs, pkw, func = tuple(func.args) + pargs, {**func.keywords, **pkw}, func.func
+      elif hasattr(func, '__wrapped__'):
+        func = func.__wrapped__
+      else:
+        break
+    if not pargs and not pkw:
       return func
     out = ['partial', func]
     memo[id(x)] = (x, out)
     # bound arguments by parameter name: partial(f, 1) and partial(f, v=1) bind the same thing
     sig = inspect.signature(func)
-    bound = sig.bind_partial(*x.args, **x.keywords).arguments
+    bound = sig.bind_partial(*pargs, **pkw).arguments
     # ... and binding a parameter to its own (immutable) default binds nothing
-    bound = {k: v for k, v in bound.items()
-             if not (sig.parameters[k].default is v and (v is None or isinstance(v, (int, str, tuple))))}
+    def is_default(k, v):
+      d = sig.parameters[k].default
+      if v is None or d is None:
+        return v is None and d is None
+      # by value, never by identity: `is` on a symbolic int is always False (and small-int caching is an accident)
+      return isinstance(v, (int, str, tuple)) and isinstance(d, (int, str, tuple)) and type(d) == type(v) and d == v
+    bound = {k: v for k, v in bound.items() if not is_default(k, v)}
     if not bound:
       del memo[id(x)]
       return func
@@ -203,6 +217,11 @@ def _member(sa, sb, sc, sv, sk, d1, m0, tg, lv):
   elif sk == 6:
     shared = [n0, lv]
     root.k = (shared, {'s': shared}, fdl.Partial(fam.g3, x=shared))
+  elif sk == 8:
+    # Partials configured through positional arguments only (positional-only parameter, *args), next to ones that set
+    # a positional parameter to its default
+    root.k = [fdl.Partial(fam.fp, lv), {'v': fdl.Partial(fam.fp, None, 2, 3, lv + 1)}, fdl.Partial(fam.fp, None, 2),
+              fdl.Partial(fam.fp, None, lv + 2)]
   if tg == 2:
     fdl.add_tag(root, 1, T1)                                         # tags on unset / positional arguments
     fdl.add_tag(root, 'k', T0)
@@ -266,10 +285,10 @@ def _all_defaults_set(cfg):
 
 def c20_transform(t: int, sa: int, sb: int, sc: int, sv: int, sk: int, d1: int, m0: int, tg: int, lv: int) -> bool:
   """
-  require: 0 <= t <= 9 and 0 <= sa <= 2 and 0 <= sb <= 2 and 0 <= sc <= 2 and 0 <= sv <= 1 and 0 <= sk <= 7
+  require: 0 <= t <= 9 and 0 <= sa <= 2 and 0 <= sb <= 2 and 0 <= sc <= 2 and 0 <= sv <= 1 and 0 <= sk <= 8
   require: 0 <= d1 <= 2 and 0 <= m0 <= 5 and 0 <= tg <= 2
   """
-  sa, sb, sc, sv, sk = _conc(sa, 0, 2), _conc(sb, 0, 2), _conc(sc, 0, 2), _conc(sv, 0, 1), _conc(sk, 0, 7)
+  sa, sb, sc, sv, sk = _conc(sa, 0, 2), _conc(sb, 0, 2), _conc(sc, 0, 2), _conc(sv, 0, 1), _conc(sk, 0, 8)
   d1, m0, tg = _conc(d1, 0, 2), _conc(m0, 0, 5), _conc(tg, 0, 2)
   x = _member(sa, sb, sc, sv, sk, d1, m0, tg, lv)
   before = canon(x)
@@ -388,7 +407,7 @@ def c20_dataclasses(shape: int, share: bool, a: int, v: int) -> bool:
 def obligations(tier, seed):
   cubes = []
   for t in range(10):
-    for sk in range(8):
+    for sk in range(9):
       if tier == 'quick':
         j = t + sk
         fix = dict(t=t, sk=sk, sv=j % 2, d1=j % 3, tg=(j // 2) % 3, sb=(j // 3) % 3)
@@ -401,7 +420,7 @@ def obligations(tier, seed):
   smoke = dict(t=0, sa=1, sb=0, sc=2, sv=1, sk=1, d1=2, m0=2, tg=1, lv=3)
   return [
       Obligation('c20_transform', c20_transform, cubes, timeout=t_, path_timeout=40, smoke=smoke,
-                 extra_smokes=[dict(smoke, t=t, sk=(t % 8), tg=t % 3, m0=(t % 2) * 2) for t in range(10)]),
+                 extra_smokes=[dict(smoke, t=t, sk=(t % 9), tg=t % 3, m0=(t % 2) * 2) for t in range(10)] + [dict(smoke, t=4, sk=8)]),
       Obligation('c20_inline', c20_inline, [Cube(f'p{p}_h{h}_n{n}', [], dict(prog=p, how=h, nested=n)) for p in range(4)
                                             for h in range(3) for n in range(3)], timeout=120, path_timeout=40,
                  smoke=dict(prog=1, how=1, nested=1, p=3, q=4)),
